@@ -34,7 +34,8 @@ LEVEL_TEXT = ('Random compounds and mixtures with known composition are given de
               'and density / natural_density are compared to 1e-12 with the mass ratio computed from independently read '
               'tables; substitutions are compared count by count and in density; volume() is compared with the '
               'covalent-sphere formula for all five lattice names and numeric factors and with the triclinic cell formula '
-              'of the property text. Held means held on the compounds, densities, substitutions and cells generated.')
+              'of the property text. Held means held on the compounds, densities, substitutions and cells generated.'
+              ' Added in rounds 5-7: very flat lattice cells (60-digit reference), substitutions that leave one kind of atom, clones of substitution results.')
 LEVEL_NOTE = ('Trusted: pvmon/gen/formulas.py and pvmon/gen/mixtures.py (known denotation), pvmon/ref/masses.py, the public '
               'covalent_radius attribute (checked against the embedded table by C20), periodictable.constants.electron_mass.')
 ASSUMPTIONS = ['model masses: tabulated neutral mass less charge * electron_mass (pvmon/ref/masses.py)',
